@@ -285,9 +285,26 @@ class JSON5(Filetype):
             'text/x-json5'
         )
 
+    @staticmethod
+    def _combine_surrogates(obj):
+        """Joins every escaped UTF-16 surrogate pair (*e.g.*, ``"\\ud83d\\ude00"``) into the character it encodes.
+
+        The :mod:`json5` parser leaves such pairs as two separate surrogates, unlike :mod:`json` and the JSON5
+        specification. Lone surrogates are left as they are.
+
+        """
+        if isinstance(obj, str):
+            return obj.encode('utf-16-le', 'surrogatepass').decode('utf-16-le', 'surrogatepass')
+        elif isinstance(obj, list):
+            return [JSON5._combine_surrogates(item) for item in obj]
+        elif isinstance(obj, dict):
+            return {JSON5._combine_surrogates(k): JSON5._combine_surrogates(v) for k, v in obj.items()}
+        else:
+            return obj
+
     def build_tree(self, path: str, options: Optional[BuildOptions] = None) -> TreeNode:
         with open(path) as f:
-            return build_tree(json5.load(f), options)
+            return build_tree(JSON5._combine_surrogates(json5.load(f)), options)
 
     def build_tree_handling_errors(self, path: str, options: Optional[BuildOptions] = None) -> Union[str, TreeNode]:
         try:
